@@ -451,8 +451,6 @@ class _View:
         self.kind = kind  # 0 rows, 1 scalars, 2 mappings
         self.cols = cols  # [(position, label)]
         self.uniq = uniq  # None | {"seen": set(), "strat": 0|1|2}   (shared by reference, like the real set)
-        self.fetched = False  # a row-fetching call was made on this view object
-        self.stale_unique = False  # unique() was called on a scalars()/mappings() view after such a call
 
 
 def _fz(v):
@@ -518,8 +516,6 @@ class ListModel:
                 if size < 1:
                     return None
             lazy_noop = code == PARTS and op[2] == 0  # generator never started
-            if not lazy_noop:
-                v.fetched = True
             if self.closed and not lazy_noop and not (code == ITER and op[1] == 0):
                 return [7, E_CLOSED], True
             if code == FETCHONE or code == NEXT:
@@ -571,8 +567,6 @@ class ListModel:
                 return [7, E_INDEX], self.closed
             v.cols = [v.cols[i] for i in op[1]]
         elif code == UNIQUE:
-            if v.kind != 0 and v.fetched:
-                v.stale_unique = True
             v.uniq = {"seen": set(), "strat": op[1]}
         elif code == YIELDPER:
             self.yp = op[1]
@@ -615,16 +609,10 @@ def _onlyone_ignoring_seen(m, v, op):
 def oracle(c, obs):
     strategy, w, rows, ops = c["in"]
     m = ListModel(w, rows, cursor=strategy[0] != 3)
-    stale_used = False
     for i, (op, got) in enumerate(zip(ops, obs)):
         v = m.view
-        if v.stale_unique and op[0] in FETCH_OPS and v.kind != 0:
-            # a getter memoised before unique() is in use: it may file keys in the wrong (shared) seen-set even
-            # when this call's own result is right, so everything from here on is in the region of that defect
-            stale_used = True
         seen_nonempty = v.uniq is not None and len(v.uniq["seen"]) > 0
         exhausted_cursor = m.cursor and not m.rem and not m.closed
-        closed_merged = m.merged and m.closed
         before = None
         if op[0] == ONLYONE and seen_nonempty:
             before = _onlyone_ignoring_seen(m, v, op)
@@ -641,14 +629,10 @@ def oracle(c, obs):
             continue  # a bad column index must be rejected; the exception class is not part of C10
         name = ONLYONE_NAMES[op[1]] if op[0] == ONLYONE else "op%d" % op[0]
         msg = "call #%d %s: list model says %s, implementation %s" % (i, name, want, have)
-        if closed_merged and op[0] in FETCH_OPS + (FREEZE,):
-            return "[merged-close] " + msg
         if before is not None and have == [before, 1]:
             return "[unique-onlyone] " + msg
         if op[0] == ONLYONE and exhausted_cursor and have == [want[0], 0]:
             return "[exhausted-onlyone-noclose] " + msg
-        if stale_used:
-            return "[filter-unique-stale] " + msg
         return msg
     return None
 
@@ -657,8 +641,6 @@ def match_finding(c, what):
     for tag, fid in (
         ("[unique-onlyone]", "C10-only-one-row-ignores-seen-set"),
         ("[exhausted-onlyone-noclose]", "C10-only-one-row-on-exhausted-cursor-result-not-closed"),
-        ("[filter-unique-stale]", "C10-filter-result-unique-after-fetch-ignored"),
-        ("[merged-close]", "C10-merged-result-close-not-enforced"),
     ):
         if what.startswith(tag):
             return fid
@@ -670,8 +652,10 @@ LEVEL_TEXT = (
     "strategies + IteratorResult, the memoised row getters (_onerow/_manyrow/_allrows/_iterator/"
     "_only_one_row), unique/columns/scalars/mappings/yield_per/close/freeze, run over ARBITRARY "
     "operation sequences, produces exactly the observations of a plain list model (every row once, in "
-    "order, projected, de-duplicated; closure reported identically) - outside three precisely "
-    "delimited defect regions, each of which has a _refuted theorem and a known-finding witness."
+    "order, projected, de-duplicated; closure reported identically) - outside two precisely "
+    "delimited defect regions (_only_one_row), each of which has a _refuted theorem and a known-finding "
+    "witness; two further defects found by this check (stale getters after ScalarResult.unique(), "
+    "MergedResult.close()) were repaired and their witnesses are kept as regression cases."
 )
 LEVEL_NOTE = (
     "Trusted: Coq kernel; the hand transcription (source pin + behavioural correspondence incl. the "
